@@ -501,11 +501,20 @@ func (w *Writer) finishSection() error {
 				panic("fail on fresh block")
 			}
 		}
+		// Flush the last block of this level, so the next level
+		// (if any) indexes it too.
+		if err := w.flushBlock(); err != nil {
+			return err
+		}
+		if len(w.index) >= len(idx) {
+			// Keys are so large that every index block holds
+			// a single entry; more levels would never shrink.
+			break
+		}
 	}
+	// What is left describes the top level; it must not leak into
+	// the index of the next section.
 	w.index = nil
-	if err := w.flushBlock(); err != nil {
-		return err
-	}
 
 	blockStats := w.getBlockStats(typ)
 	blockStats.IndexBlocks = w.Stats.idxStats.Blocks - before
